@@ -1,3 +1,4 @@
+import QeepProps.C12
 import QeepProps.C13
 import QeepProps.C15
 /-!
@@ -625,6 +626,241 @@ theorem leaky_local_vjp (bm : BMode) (H : Heap ℝ) (x z s1 s2 s3 s1' s3' : Nat)
   refine ⟨g2, gz2, c2, gz1, c1, gzt, cz, c21, k1, k2, k3, k4, k5, k6, k7, k8, k9, k10, k11, ?_⟩
   rw [k12]
   exact congrArg Out.ok (gz_congr G (H.val x) _ _ (fun a => one_mul _))
+
+/-! ## Softmax on a rank-1 input (`Dim = 0`), Broadcast rule in `sum` mode -/
+
+theorem foldl_add_sum : ∀ (l : List ℝ) (a : ℝ), l.foldl Scalar.add a = a + l.sum
+  | [], a => by simp
+  | x :: xs, a => by rw [List.foldl_cons, foldl_add_sum xs, List.sum_cons, add_eq, add_assoc]
+
+theorem tensor_sum_eq (t : Tensor ℝ) : t.sum = t.data.sum := by
+  simp only [Tensor.sum, Tensor.fold, foldl_add_sum, zero_eq, zero_add]
+
+theorem unsq_scalar (c : ℝ) : vUnSqueeze (⟨[], [c]⟩ : Tensor ℝ) ((0 : Nat) : Int) = .ok ⟨[1], [c]⟩ := by
+  have hwf : (⟨[], [c]⟩ : Tensor ℝ).WF := ⟨by simp [prod], by simp⟩
+  simp [vUnSqueeze, validUnSqueeze, C06.unsqueeze_data _ hwf, Out.ofOpt, unsqueezeDims]
+
+theorem reshape_to_scalar (c : ℝ) : vReshape (⟨[1], [c]⟩ : Tensor ℝ) (([] : List Nat).map Int.ofNat) = .ok ⟨[], [c]⟩ := by
+  have hwf : (⟨[1], [c]⟩ : Tensor ℝ).WF := ⟨by simp [prod], by simp⟩
+  have := (C06.vReshape_total (⟨[1], [c]⟩ : Tensor ℝ) hwf []).1 ⟨by simp [validInputDims], by simp [natDims, prod]⟩
+  simpa [natDims] using this
+
+/-- the factor the `Broadcast` rule `[n] → [1]` puts on the sum of the upstream gradient: `1` in `sum` mode, `1/n` in
+    `mean` mode (the library: `AvgAlong`, finding D2) -/
+noncomputable def bfac (bm : BMode) (n : Nat) : ℝ :=
+  match bm with
+  | .sum => 1
+  | .mean => 1 / (n : ℝ)
+
+/-- the `Broadcast` rule `[1] → [n]`: the sum (`sum` mode) or the average (`mean` mode) of the upstream gradient, as a
+    `[1]` tensor -/
+theorem bcast_1n (bm : BMode) (n : Nat) (g : Tensor ℝ) (wg : g.WF) (dg : g.dims = [n]) :
+    bcastRule bm [1] [n] g = .ok ⟨[1], [bfac bm n * g.data.sum]⟩ := by
+  by_cases h1 : n = 1
+  · subst h1
+    have hl : g.data.length = 1 := by rw [wg.1, dg]; simp [prod]
+    have hg : g = ⟨[1], [bfac bm 1 * g.data.sum]⟩ := by
+      cases g with
+      | mk dims data =>
+        simp only at dg hl ⊢
+        match data, hl with
+        | [v], _ => cases bm <;> simp [dg, bfac]
+    rw [C13.bcastRule_same]
+    exact congrArg Out.ok hg
+  · have hne : (1 : Nat) ≠ n := fun h => h1 h.symm
+    have h0 : (((0 : Nat) : Int)) = (0 : Int) := rfl
+    cases bm with
+    | sum =>
+      have hr : vAlong .sum g ((0 : Nat) : Int) = .ok ⟨[], [bfac .sum n * g.data.sum]⟩ := by
+        rw [h0, C12.vAlong_rank1 .sum g n dg wg]
+        simp only [Reducer.fn, tensor_sum_eq, bfac, one_mul]
+      simp only [bcastRule, List.length_cons, List.length_nil, Nat.sub_self, bcastLead, bind, Out.bind, List.drop_zero,
+        bcastExpand, hne, ne_eq, not_false_eq_true, if_true, hr, unsq_scalar]
+    | mean =>
+      have hr : vAlong .avg g ((0 : Nat) : Int) = .ok ⟨[], [bfac .mean n * g.data.sum]⟩ := by
+        rw [h0, C12.vAlong_rank1 .avg g n dg wg]
+        simp only [Reducer.fn, Tensor.avg, tensor_sum_eq, bfac, Tensor.numElems, dg, prod, div_eq, ofNat_eq, Nat.mul_one]
+        congr 2
+        rw [div_eq_mul_inv, one_div, mul_comm]
+      simp only [bcastRule, List.length_cons, List.length_nil, Nat.sub_self, bcastLead, bind, Out.bind, List.drop_zero,
+        bcastExpand, hne, ne_eq, not_false_eq_true, if_true, hr, unsq_scalar]
+
+/-- the softmax denominator `Σ_k exp(x_k)` -/
+noncomputable def expSum (X : Tensor ℝ) : ℝ := (X.data.map Real.exp).sum
+
+/-- `softmax(x)` at the position holding the value `a` -/
+noncomputable def smax (X : Tensor ℝ) (a : ℝ) : ℝ := Real.exp a / expSum X
+
+theorem sum_zipWith_mul_left (k : ℝ) (f : ℝ → ℝ → ℝ) :
+    ∀ (l m : List ℝ), (List.zipWith (fun g a => k * f g a) l m).sum = k * (List.zipWith f l m).sum
+  | [], _ => by simp
+  | _ :: _, [] => by simp
+  | x :: l, y :: m => by simp [sum_zipWith_mul_left k f l m, mul_add]
+
+theorem expSum_pos (X : Tensor ℝ) (wX : X.WF) : 0 < expSum X := by
+  have hne : X.data ≠ [] := by
+    intro h
+    have := wX.1
+    rw [h] at this
+    have hp := prod_pos wX.2
+    simp at this; omega
+  unfold expSum
+  cases hX : X.data with
+  | nil => exact absurd hX hne
+  | cons a l =>
+    have : ∀ l : List ℝ, 0 ≤ (l.map Real.exp).sum := by
+      intro l
+      induction l with
+      | nil => simp
+      | cons b l ih => simp only [List.map_cons, List.sum_cons]; have := Real.exp_pos b; linarith
+    simp only [List.map_cons, List.sum_cons]
+    have h1 := Real.exp_pos a
+    have h2 := this l
+    linarith
+
+/-- `Σ_i g_i · softmax(x)_i` -/
+noncomputable def sdot (G X : Tensor ℝ) : ℝ := (List.zipWith (fun g a => g * smax X a) G.data X.data).sum
+
+/-- the Softmax chain for either mode of the `Broadcast` rule: `s_j · (G_j − bfac · Σ_i G_i s_i)` arrives at `x` -/
+theorem softmax_chain (bm : BMode) (H : Heap ℝ) (x e s s' e' s'' : Nat) (n : Nat) (G : Tensor ℝ)
+    (dX : (H.val x).dims = [n])
+    (he : H.val e = (H.val x).map Real.exp) (hs : (H.val s).dims = []) (hs' : (H.val s').dims = [1])
+    (he' : H.val e' = H.val e) (hs'' : H.val s'' = ⟨[n], List.replicate n (expSum (H.val x))⟩)
+    (wX : (H.val x).WF) (wG : G.WF) (hd : G.dims = [n]) :
+    ∃ ga gb g1 g2 ce1 ce2 ge,
+      evalRule bm H G (.divA s'') = .ok ga ∧
+      evalRule bm H G (.divB e' s'') = .ok gb ∧
+      evalRule bm H gb (.bcastX s' s'') = .ok g1 ∧
+      evalRule bm H g1 (.reshapeX s) = .ok g2 ∧
+      evalRule bm H g2 (.sumAlongX e 0) = .ok ce1 ∧
+      evalRule bm H ga (.bcastX e e') = .ok ce2 ∧
+      vArith .add ce1 ce2 = .ok ge ∧
+      evalRule bm H ge (.expX e) = .ok ⟨[n], List.zipWith (fun g a => smax (H.val x) a * (g - bfac bm n * sdot G (H.val x)))
+        G.data (H.val x).data⟩ := by
+  have hn : 0 < n := wX.2 n (by rw [dX]; simp)
+  have hlX : (H.val x).data.length = n := by rw [wX.1, dX]; simp [prod]
+  have hlG : G.data.length = n := by rw [wG.1, hd]; simp [prod]
+  have wE : (H.val e).WF := by rw [he]; exact map_wf _ _ wX
+  have dE : (H.val e).dims = [n] := by rw [he]; exact dX
+  have wS : (H.val s'').WF := by rw [hs'']; exact ⟨by simp [prod], by simpa using hn⟩
+  have dS : (H.val s'').dims = [n] := by rw [hs'']
+  obtain ⟨_, r2, r3⟩ := C02.rule_mul_div bm H G e' s'' wG (by rw [he']; exact wE) wS (by rw [he', dE, hd]) (by rw [dS, hd])
+  -- the gradient towards the denominator, element-wise
+  have hgb : List.zipWith (fun g p => g * p) G.data
+        (List.zipWith (fun u v => (-1 * u) / v ^ (2 : ℝ)) (H.val e').data (H.val s'').data)
+      = List.zipWith (fun g a => (-1 / expSum (H.val x)) * (g * smax (H.val x) a)) G.data (H.val x).data := by
+    rw [he', he, hs'']
+    apply List.ext_getElem
+    · simp [Tensor.map, hlX, hlG]
+    · intro i h1 h2
+      simp only [Tensor.map, List.getElem_zipWith, List.getElem_map, List.getElem_replicate, smax, Real.rpow_two]
+      ring
+  have wgb : (⟨G.dims, List.zipWith (fun g a => (-1 / expSum (H.val x)) * (g * smax (H.val x) a)) G.data (H.val x).data⟩ : Tensor ℝ).WF := by
+    refine ⟨?_, wG.2⟩
+    simp [hlX, hlG, hd, prod]
+  rw [hgb] at r3
+  have hc : (List.zipWith (fun g a => (-1 / expSum (H.val x)) * (g * smax (H.val x) a)) G.data (H.val x).data).sum
+      = (-1 / expSum (H.val x)) * sdot G (H.val x) := sum_zipWith_mul_left _ _ _ _
+  -- Broadcast rule [n] → [1]
+  have b1 : evalRule bm H (⟨G.dims, List.zipWith (fun g a => (-1 / expSum (H.val x)) * (g * smax (H.val x) a)) G.data (H.val x).data⟩ : Tensor ℝ)
+      (.bcastX s' s'') = .ok ⟨[1], [bfac bm n * ((-1 / expSum (H.val x)) * sdot G (H.val x))]⟩ := by
+    simp only [evalRule, hs', dS]
+    rw [bcast_1n bm n _ wgb hd, hc]
+  have b2 : evalRule bm H (⟨[1], [bfac bm n * ((-1 / expSum (H.val x)) * sdot G (H.val x))]⟩ : Tensor ℝ) (.reshapeX s)
+      = .ok ⟨[], [bfac bm n * ((-1 / expSum (H.val x)) * sdot G (H.val x))]⟩ := by
+    simp only [evalRule, hs]
+    exact reshape_to_scalar _
+  have b3 : evalRule bm H (⟨[], [bfac bm n * ((-1 / expSum (H.val x)) * sdot G (H.val x))]⟩ : Tensor ℝ) (.sumAlongX e 0)
+      = .ok ⟨[n], List.replicate n (bfac bm n * ((-1 / expSum (H.val x)) * sdot G (H.val x)))⟩ := by
+    simp only [evalRule, dE]
+    exact C13.reducerBroadcasted_scalar _ n hn
+  have wga : (⟨G.dims, List.zipWith (fun g v => g / v) G.data (H.val s'').data⟩ : Tensor ℝ).WF :=
+    zip_wf _ G (H.val s'') wG wS (by rw [dS, hd])
+  have wce1 : (⟨[n], List.replicate n (bfac bm n * ((-1 / expSum (H.val x)) * sdot G (H.val x)))⟩ : Tensor ℝ).WF :=
+    ⟨by simp [prod], by simpa using hn⟩
+  have b5 := vArith_same .add _ _ wce1 wga (by rw [hd])
+  have wge := zip_wf Arith.add.fn _ _ wce1 wga (by rw [hd])
+  refine ⟨_, _, _, _, _, _, _, r2, r3, b1, b2, b3, r_bcast bm H _ e e' (by rw [he']), b5, ?_⟩
+  simp only [evalRule]
+  rw [vArith_same .mul _ _ wge wE (by rw [dE])]
+  congr 2
+  rw [he, hs'']
+  apply List.ext_getElem
+  · simp [Tensor.map, hlX, hlG]
+  · intro i h1 h2
+    simp only [Tensor.map, Arith.fn, List.getElem_zipWith, List.getElem_map, List.getElem_replicate, smax,
+      add_eq, mul_eq]
+    ring
+
+/-- **Softmax (rank-1 input, `Dim = 0`), local backward pass, `Broadcast` rule in `sum` mode.**
+    The graph `actForward (.softmax 0)` builds on `x` of shape `[n]` (see `softmax_graph`): `e = Exp(x)`,
+    `s = SumAlong(e,0)` (shape `[]`), `s' = UnSqueeze(s,0)` (shape `[1]`), `r = Div(e', s'')` with `e' = Broadcast(e,[n])`
+    (identity) and `s'' = Broadcast(s',[n])` (a genuine expansion `[1] → [n]`). With `G` the gradient arriving at `r`, in
+    the order the walk processes the edges: the two `Div` rules; towards the denominator the `Broadcast` rule
+    `[n] → [1]`, `Reshape` to `[]`, the `SumAlong` rule (re-expansion to `[n]`); towards the numerator the identity
+    `Broadcast` rule; the sum of the two contributions at `e`; the `Exp` rule. What arrives at `x` is
+    `s_j · (G_j − Σ_i G_i s_i)` at every position `j`, `s = softmax(x)` — the product of `G` with the Jacobian
+    `∂s_i/∂x_j = s_i (δ_ij − s_j)` (`softmax_jacobian_vjp`, `d_softmax`). Every length `n`, all values.
+
+    Stated for `BMode.sum` only: with `BMode.mean` (what the library does, finding D2) the `[n] → [1]` step averages
+    and the result is `s_j · (G_j − (1/n) Σ_i G_i s_i)`, wrong for `n > 1` — `softmax_local_vjp_mean_partial`. -/
+theorem softmax_local_vjp (H : Heap ℝ) (x e s s' e' s'' : Nat) (n : Nat) (G : Tensor ℝ)
+    (dX : (H.val x).dims = [n])
+    (he : H.val e = (H.val x).map Real.exp) (hs : (H.val s).dims = []) (hs' : (H.val s').dims = [1])
+    (he' : H.val e' = H.val e) (hs'' : H.val s'' = ⟨[n], List.replicate n (expSum (H.val x))⟩)
+    (wX : (H.val x).WF) (wG : G.WF) (hd : G.dims = [n]) :
+    ∃ ga gb g1 g2 ce1 ce2 ge,
+      evalRule .sum H G (.divA s'') = .ok ga ∧
+      evalRule .sum H G (.divB e' s'') = .ok gb ∧
+      evalRule .sum H gb (.bcastX s' s'') = .ok g1 ∧
+      evalRule .sum H g1 (.reshapeX s) = .ok g2 ∧
+      evalRule .sum H g2 (.sumAlongX e 0) = .ok ce1 ∧
+      evalRule .sum H ga (.bcastX e e') = .ok ce2 ∧
+      vArith .add ce1 ce2 = .ok ge ∧
+      evalRule .sum H ge (.expX e) = .ok ⟨[n], List.zipWith (fun g a => smax (H.val x) a * (g - sdot G (H.val x)))
+        G.data (H.val x).data⟩ := by
+  have key := softmax_chain .sum H x e s s' e' s'' n G dX he hs hs' he' hs'' wX wG hd
+  simp only [bfac, one_mul] at key
+  exact key
+
+/-- **Softmax with the library's `Broadcast` rule (`mean` mode, finding D2)** — the strongest true statement: the same
+    chain delivers `s_j · (G_j − (1/n) Σ_i G_i s_i)`. This is NOT the vector-Jacobian product for `n > 1` whenever
+    `Σ_i G_i s_i ≠ 0` (`softmax_mean_ne_vjp`); e.g. `x = [0,0]`, `G = [1,0]`: `s = [½,½]`, the product with the
+    Jacobian is `[¼, −¼]`, the `mean` chain delivers `[⅜, −⅛]`. For `n = 1` both are `0`. -/
+theorem softmax_local_vjp_mean_partial (H : Heap ℝ) (x e s s' e' s'' : Nat) (n : Nat) (G : Tensor ℝ)
+    (dX : (H.val x).dims = [n])
+    (he : H.val e = (H.val x).map Real.exp) (hs : (H.val s).dims = []) (hs' : (H.val s').dims = [1])
+    (he' : H.val e' = H.val e) (hs'' : H.val s'' = ⟨[n], List.replicate n (expSum (H.val x))⟩)
+    (wX : (H.val x).WF) (wG : G.WF) (hd : G.dims = [n]) :
+    ∃ ga gb g1 g2 ce1 ce2 ge,
+      evalRule .mean H G (.divA s'') = .ok ga ∧
+      evalRule .mean H G (.divB e' s'') = .ok gb ∧
+      evalRule .mean H gb (.bcastX s' s'') = .ok g1 ∧
+      evalRule .mean H g1 (.reshapeX s) = .ok g2 ∧
+      evalRule .mean H g2 (.sumAlongX e 0) = .ok ce1 ∧
+      evalRule .mean H ga (.bcastX e e') = .ok ce2 ∧
+      vArith .add ce1 ce2 = .ok ge ∧
+      evalRule .mean H ge (.expX e) = .ok ⟨[n], List.zipWith (fun g a => smax (H.val x) a * (g - 1 / (n : ℝ) * sdot G (H.val x)))
+        G.data (H.val x).data⟩ :=
+  softmax_chain .mean H x e s s' e' s'' n G dX he hs hs' he' hs'' wX wG hd
+
+/-- the `mean` result differs from the vector-Jacobian product at EVERY position as soon as `n > 1` and
+    `Σ_i G_i s_i ≠ 0` -/
+theorem softmax_mean_ne_vjp (X : Tensor ℝ) (wX : X.WF) (n : Nat) (hn : 1 < n) (g a d : ℝ) (hd : d ≠ 0) :
+    smax X a * (g - 1 / (n : ℝ) * d) ≠ smax X a * (g - d) := by
+  have hs : smax X a ≠ 0 := (div_pos (Real.exp_pos a) (expSum_pos X wX)).ne'
+  have hn' : (n : ℝ) ≠ 0 := by positivity
+  have hn1 : (n : ℝ) ≠ 1 := by
+    intro h
+    have : n = 1 := by exact_mod_cast h
+    omega
+  intro h
+  have h2 := mul_left_cancel₀ hs h
+  have h3 : 1 / (n : ℝ) * d = 1 * d := by linarith
+  have h4 := mul_right_cancel₀ hd h3
+  apply hn1
+  field_simp at h4
+  linarith
 
 end C15x
 end Qeep
